@@ -138,9 +138,22 @@ func runDFTRoundTrip(c DFTCase, rec *h.Rec) error {
 	if err := ecd.Decode(dec.DecryptNew(out), have); err != nil {
 		return h.Failf("C11:ckks:decode", "Decode: %v", err)
 	}
-	// precision floor as a function of the literal: scale, ring degree and number of matrices (observed error is about
-	// 2^-36 for N=64 and four matrices; a wrong diagonal or rotation gives an error of order 1)
-	tol := math.Exp2(float64(c.LogN + 4*nMat + 14 - logScale))
+	// precision floor as a function of the literal: the k matrices of a level with Levels[i] = k are encoded at the
+	// scale q^(1/k), so their entries carry about 45/k bits; the error grows with the ring degree and the number of
+	// matrices (observed: 2^-36 for N=64, four matrices, k=1; 2^-18 for N=32, k=2). A wrong diagonal or rotation gives
+	// an error of order 0.1 to 1.
+	maxK := 1
+	for _, l := range c.Levels {
+		if l > maxK {
+			maxK = l
+		}
+	}
+	tol := math.Exp2(float64(c.LogN+2*nMat+6) - float64(logScale)/float64(maxK))
+	if tol > 1.0/16 {
+		// the literal leaves too little precision to tell a right from a wrong result: only key sufficiency was decided
+		rec.Class("roundtrip=unjudged(precision)")
+		return nil
+	}
 	if i, d := firstDiffC(have, vals, tol, nil); i >= 0 {
 		return h.Failf("C11:dft:roundtrip:value", "%s: slot %d = %v after CoeffsToSlots+SlotsToCoeffs, expected %v (|diff|=%.3g > tol %.3g)\n have %s\n want %s", detail, i, have[i], vals[i], d, tol, fmtC(have, 6), fmtC(vals, 6))
 	}
